@@ -166,7 +166,24 @@ def rule_c(ctx, out):
     C09.rule_b(ctx, out)
 
 
+def rule_d(ctx, out):
+    """Stack variables are numbered, and their numbers are compared as numbers: the greatest variable of a sub-block's last
+    instruction fixes the source stack of the next sub-block.  max/min over strings is lexicographic ('s(9)' > 's(10)')."""
+    from ..core.idioms import extremes
+    n = 0
+    for f, call, t in extremes(ctx):
+        n += 1
+        if t == "str":
+            out.bad(f"lexicographic-extreme:{f.name}:{norm(call)[:40]}", f"{f.name}: `{short(call, 60)}` takes the extreme of strings — lexicographic, "
+                    f"not numeric, order ('s(9)' > 's(10)')", where(f, call), {"element_type": t})
+        else:
+            out.ok({"function": f.name, "call": short(call, 50), "element_type": t or "not a string list (unknown or numeric)"})
+    if n < 6:
+        raise AnalysisError(f"only {n} max/min-over-iterable calls found")
+
+
 RULES = [
+    ("C14.d", "variable numbers are compared as numbers", 6, rule_d),
     ("C14.a", "sub-block names: one expression for writer and reader", 12, rule_a),
     ("C14.b", "split vocabulary has arities and translations", 15, rule_b),
     ("C14.c", "the rebuild never fabricates instructions", 9, rule_c),
